@@ -18,14 +18,25 @@ def rtcSends (x : Ctx) (ph : Phase) (cb : CbId) (es : List EventId) (c : Cfg) : 
     log := c.log ++ es.map (fun _ => Entry.sendRet x.t.tid ph cb .none)
     nextTid := c.nextTid + es.length }
 
-theorem sendsLoop_rtc (x : Ctx) (ph : Phase) (cb : CbId) (es : List EventId) (c : Cfg) :
-    sendsLoop nestedRtc x ph cb es c = (rtcSends x ph cb es c, .ok ()) := by
-  induction es generalizing c with
-  | nil => simp [sendsLoop, rtcSends, mkTrigs]
+/-- in RTC mode every nested send returns `None` -/
+def rtcLast (last : Option Res) : List EventId → Option Res
+  | [] => last
+  | _ :: _ => some .none
+
+/-- what a callback invocation hands back in RTC mode: its own value; an event used as a callback: `None` -/
+def rtcRet (m : Machine) (a : Act) : Val := retOf m a (rtcLast none a.sends)
+
+theorem rtcRet_plain (m : Machine) (a : Act) (h : a.retSend = false) : rtcRet m a = a.ret := by
+  simp [rtcRet, retOf, h]
+
+theorem sendsLoop_rtc (x : Ctx) (ph : Phase) (cb : CbId) (es : List EventId) (last : Option Res) (c : Cfg) :
+    sendsLoop nestedRtc x ph cb last es c = (rtcSends x ph cb es c, .ok (rtcLast last es)) := by
+  induction es generalizing c last with
+  | nil => simp [sendsLoop, rtcSends, mkTrigs, rtcLast]
   | cons e es ih =>
     simp only [sendsLoop, nestedRtc, EM.bind_apply, enqueue, EM.modify, logAppend, EM.pure_apply]
     rw [ih]
-    simp [rtcSends, mkTrigs, Nat.add_assoc, Nat.add_comm 1]
+    cases es <;> simp [rtcSends, mkTrigs, Nat.add_assoc, Nat.add_comm 1, rtcLast]
 
 /-- explicit effect of one callback invocation in RTC mode -/
 theorem runCb_rtc (m : Machine) (x : Ctx) (ph : Phase) (cb : CbId) (c : Cfg) :
@@ -35,10 +46,10 @@ theorem runCb_rtc (m : Machine) (x : Ctx) (ph : Phase) (cb : CbId) (c : Cfg) :
         { c with log := c.log ++ [.cbBegin x.t.tid ph cb c.cur x.t.event x.src x.tgt], nextInv := c.nextInv + 1 }
       match a.raises with
       | some e => (c1, .error (.user e))
-      | none => ({ c1 with log := c1.log ++ [.cbEnd x.t.tid ph cb a.ret] }, .ok a.ret) := by
+      | none => ({ c1 with log := c1.log ++ [.cbEnd x.t.tid ph cb (rtcRet m a)] }, .ok (rtcRet m a)) := by
   simp only [runCb, EM.bind_apply, EM.get, EM.modify, sendsLoop_rtc]
   cases h : (m.behav cb c.nextInv { tid := x.t.tid, state := c.cur, event := x.t.event }).raises <;>
-    simp [EM.throw, logAppend, EM.modify, EM.bind_apply]
+    simp [EM.throw, logAppend, EM.modify, EM.bind_apply, rtcRet]
 
 /-- the model field and the lock are not touched -/
 structure Same (c c' : Cfg) : Prop where
@@ -78,7 +89,7 @@ theorem runCb_res (x : Ctx) (hx : x.t = t) (ph : Phase) (cb : CbId) (c : Cfg) :
     (runCb nestedRtc m x ph cb c).2 =
       match (act cb).raises with
       | some e => .error (.user e)
-      | none => .ok (act cb).ret := by
+      | none => .ok (rtcRet m (act cb)) := by
   rw [runCb_rtc]
   simp only [hx, B cb]
   cases (act cb).raises <;> rfl
@@ -90,7 +101,7 @@ theorem runGroup_res (x : Ctx) (hx : x.t = t) (ph : Phase) (cs : List CbId) (c :
     (runGroup nestedRtc m x ph cs c).2 =
       match firstRaise act cs with
       | some e => .error (.user e)
-      | none => .ok (cs.map fun cb => (act cb).ret) := by
+      | none => .ok (cs.map fun cb => rtcRet m (act cb)) := by
   induction cs generalizing c with
   | nil => rfl
   | cons cb cs ih =>
@@ -113,12 +124,12 @@ theorem runGroup_res (x : Ctx) (hx : x.t = t) (ph : Phase) (cs : List CbId) (c :
       cases List.findSome? (fun cb => (act cb).raises) cs <;> rfl
 
 /-- `cond`/`unless` conjunction -/
-def guardsPass (truthy : Val → Bool) (act : CbId → Act) (cs : List (CbId × Bool)) : Bool :=
-  cs.all fun p => truthy (act p.1).ret == p.2
+def guardsPass (m : Machine) (act : CbId → Act) (cs : List (CbId × Bool)) : Bool :=
+  cs.all fun p => m.truthy (rtcRet m (act p.1)) == p.2
 
 theorem runConds_res (x : Ctx) (hx : x.t = t) (cs : List (CbId × Bool))
     (hno : ∀ p ∈ cs, (act p.1).raises = none) (c : Cfg) :
-    (runConds nestedRtc m x cs c).2 = .ok (guardsPass m.truthy act cs) := by
+    (runConds nestedRtc m x cs c).2 = .ok (guardsPass m act cs) := by
   induction cs generalizing c with
   | nil => rfl
   | cons p cs ih =>
@@ -131,7 +142,7 @@ theorem runConds_res (x : Ctx) (hx : x.t = t) (cs : List (CbId × Bool))
     simp only at h1
     subst h1
     simp only [guardsPass, List.all_cons]
-    by_cases hv : (m.truthy (act cb).ret == ex) = true
+    by_cases hv : (m.truthy (rtcRet m (act cb)) == ex) = true
     · simp only [hv, if_true, Bool.true_and]
       exact ih (fun p hp => hno p (by simp [hp])) c1
     · simp only [hv]
@@ -140,7 +151,7 @@ theorem runConds_res (x : Ctx) (hx : x.t = t) (cs : List (CbId × Bool))
 
 theorem runGroup_ok (x : Ctx) (hx : x.t = t) (ph : Phase) (cs : List CbId) (c : Cfg)
     (h : firstRaise act cs = none) :
-    (runGroup nestedRtc m x ph cs c).2 = .ok (cs.map fun cb => (act cb).ret) := by
+    (runGroup nestedRtc m x ph cs c).2 = .ok (cs.map fun cb => rtcRet m (act cb)) := by
   rw [runGroup_res B x hx, h]
 
 theorem runGroup_err (x : Ctx) (hx : x.t = t) (ph : Phase) (cs : List CbId) (c : Cfg) (e : Nat)
